@@ -373,7 +373,8 @@ static void list_units(const std::string& tier0)
     } else if (P=="c07") {
         for (const char* pol : {"eao","eap"}) for (const char* k : {"S:MTb:F","S:MTi:Q","R:MTb:I"}) {
             const char* sh = k[0]=='R' ? "S3" : "S7";
-            snprintf(b,sizeof b,"profile=c07,kind=%s,shape=%s,depth=%d,cat=5,pol=%s,cfgs=%s,compress=%d", k, sh, th?3:2, pol, th?"ct36":"ct12", th?1:0); emit(b, th?64:8);
+            // (thorough: entry compression is also enumerated for the relation kind only; with it on all three kinds the tier needed ~24 CPU-hours)
+            snprintf(b,sizeof b,"profile=c07,kind=%s,shape=%s,depth=%d,cat=%d,pol=%s,cfgs=%s,compress=%d", k, sh, th?3:2, (th && k[0]!='R')?4:5, pol, th?"ct36":"ct12", (th && k[0]=='R')?1:0); emit(b, th?64:8);
             if (!th) { snprintf(b,sizeof b,"profile=c07,kind=%s,shape=%s,depth=3,cat=4,pol=%s,cfgs=default", k, sh, pol); emit(b, 8); }
         }
         // relation scenario: image / reachability / saturation operations (their own caches and cached relation split) under every CT configuration
